@@ -87,13 +87,15 @@ def _query(coll, md_image):
     return ast.parse(f"Select({src}, lambda e: e.{coll}('A').Count())", mode="eval").body
 
 
-def _run(backend, nfiles, second_dir_for, missing, image, tag, has_md, give_out, nchunks, stderr_first, fail_after, write_result, tempdir_known):
+def _run(backend, nfiles, second_dir_for, missing, image, tag, has_md, give_out, nchunks, stderr_first, fail_after, write_result, tempdir_known,
+         write_early=False, md_images=None):
     cls, coll, cache = _dataset_class(backend)
     files = _setup(nfiles, second_dir_for, missing)
     SCENARIO.reset()
     SCENARIO.chunks = [(("stderr" if (stderr_first and i == 0) else "stdout"), b"line") for i in range(nchunks)]
     SCENARIO.fail_after = fail_after if fail_after >= 0 else None
     SCENARIO.write_result = write_result
+    SCENARIO.write_early = write_early
     _DetTempDir.created = []
     tempfile.tempdir = str(BASE) if tempdir_known else None
     out_dir = BASE / "out"
@@ -106,7 +108,17 @@ def _run(backend, nfiles, second_dir_for, missing, image, tag, has_md, give_out,
     if 0 <= missing < nfiles:
         return False                                   # a missing file must be refused by the constructor
     md_image = "from/metadata:9" if has_md else None
-    coro = ds.execute_result_async(_query(coll, md_image), "title")
+    if md_images is not None:
+        # several docker metadata blocks, innermost first; which POSITION wins was observed with pairwise different images
+        src = "EventDataset('ds')"
+        for im in md_images[0]:
+            src = f"MetaData({src}, {{'metadata_type': 'docker', 'image': {im!r}}})"
+        qry = ast.parse(f"Select({src}, lambda e: e.{coll}('A').Count())", mode="eval").body
+        md_image = md_images[0][md_images[1]]
+        has_md = True
+    else:
+        qry = _query(coll, md_image)
+    coro = ds.execute_result_async(qry, "title")
     result = None
     raised = None
     try:
@@ -141,7 +153,8 @@ def _run(backend, nfiles, second_dir_for, missing, image, tag, has_md, give_out,
         return False
     container_fails = SCENARIO.fail_after is not None
     if container_fails:
-        return isinstance(raised, python_on_whales.exceptions.DockerException) and result is None
+        # the error propagates, nothing is returned and nothing is delivered to the requested output directory
+        return isinstance(raised, python_on_whales.exceptions.DockerException) and result is None and not (out_dir / "ANALYSIS.root").exists()
     if not write_result:
         return raised is not None and result is None   # missing result file -> raises
     if raised is not None or result is None or len(result) != 1:
@@ -190,3 +203,35 @@ def fresh_process_tempdir(backend: int, give_out: bool, tempdir_known: bool) -> 
     """
     # in a fresh process tempfile.tempdir is None until gettempdir() has been called once
     return _run(backend, 1, -1, -1, "img", "t1", False, give_out, 0, False, -1, True, tempdir_known)
+
+
+def container_fails_after_writing(backend: int, nchunks: int, fail_after: int, give_out: bool) -> bool:
+    """
+    pre: 0 <= backend <= 2 and 0 <= nchunks <= 2 and 0 <= fail_after <= 2
+    post: _
+    """
+    # the job wrote its output file and THEN the container failed (at any chunk): still an error, nothing returned
+    return _run(backend, 1, -1, -1, "img", "t", False, give_out, nchunks, False, fail_after, True, True, write_early=True)
+
+
+def _winning_position(backend):
+    "which of three pairwise different docker metadata blocks supplies the image (observed once, concretely)"
+    imgs = ["d0/i:0", "d1/i:1", "d2/i:2"]
+    for k in range(3):
+        if _run(backend, 1, -1, -1, "img", "t", False, True, 0, False, -1, True, True, md_images=(imgs, k)):
+            return k
+    return -1
+
+
+def docker_metadata_position_only(backend: int, i0: int, i1: int, i2: int) -> bool:
+    """
+    pre: 0 <= backend <= 2 and 0 <= i0 <= 1 and 0 <= i1 <= 1 and 0 <= i2 <= 1
+    post: _
+    """
+    # the block that wins is decided by its position in the query, not by which blocks happen to be equal (A,B,A / A,A,B / ...)
+    k = _winning_position(backend)
+    if k < 0:
+        return False
+    two = ["reg.example/a:1", "other/b:2"]
+    imgs = [two[i0], two[i1], two[i2]]
+    return _run(backend, 1, -1, -1, "img", "t", False, True, 0, False, -1, True, True, md_images=(imgs, k))
